@@ -250,6 +250,16 @@ func init() {
 				cs := CallsTo(fn, sub)
 				ok := len(cs) == 1 && argT(fa, cs[0], 1).String() == "$valAddr" && argT(fa, cs[0], 2).String() == "$fraction" && fa.MustFollow(fn.Blocks[0].Instrs[0], callsAsInstrs(cs)) == nil
 				r.Check(ok, k, "calls "+sub+" with the same validator and fraction", "on every success path", "pending entries are not slashed with the hook's validator and fraction on every success path", e.Pos(fn.Pos()))
+				// the bonded part is complete before the steps that can fail are started: x/staking only logs the hook's
+				// error and keeps what was written, so a validator record that is persisted after them is lost whenever
+				// they fail, while the asset totals written in the loop stay reduced (round 10)
+				if len(cs) == 1 && len(sv) == 1 {
+					if trail := fa.MustPassThrough(nil, cs[0], callsAsInstrs(sv)); trail != nil {
+						r.Bad(k, "validator record persisted before "+sub, "the slashed validator's reduced shares are written only after the slash of its pending entries: when that step returns an error (x/staking logs it and does not revert) the asset totals are already reduced and the validator keeps all its shares: its delegators gain instead of losing the fraction, and the validators' shares exceed the asset total", trail, r.P(cs[0]))
+					} else {
+						r.OK(k, "validator record persisted before "+sub, "every path to the call passes SetValidator", r.P(sv[0]))
+					}
+				}
 			}
 		}})
 
